@@ -11,4 +11,48 @@ mod vx_kani {
         kani::assume(k < 32);
         assert!(t[k] == o.0[k]);
     }
+
+    // the curve operations behind key / proof parsing are far beyond CBMC; they are replaced by cheap stand-ins so that the
+    // LENGTH discipline of the two parsers (the part written in this crate) can be checked on every length
+    fn stub_decompress(_c: &CompressedEdwardsY) -> Option<EdwardsPoint> {
+        Some(EdwardsPoint::default())
+    }
+    fn stub_small_order(_p: &EdwardsPoint) -> bool {
+        false
+    }
+    fn stub_pk_from_bytes(_b: &[u8; 32]) -> Result<ed25519_PublicKey, ed25519_dalek::SignatureError> {
+        Ok(ed25519_PublicKey::default())
+    }
+    fn stub_format(_a: core::fmt::Arguments<'_>) -> alloc::string::String {
+        alloc::string::String::new()
+    }
+
+    /// VRFPublicKey::try_from refuses every byte string whose length is not 32 (lengths 0..=40 symbolic): an altered (extended,
+    /// truncated) key never parses to the honest key
+    #[kani::proof]
+    #[kani::unwind(44)]
+    #[kani::stub(CompressedEdwardsY::decompress, stub_decompress)]
+    #[kani::stub(EdwardsPoint::is_small_order, stub_small_order)]
+    #[kani::stub(ed25519_dalek::VerifyingKey::from_bytes, stub_pk_from_bytes)]
+    #[kani::stub(alloc::fmt::format, stub_format)]
+    fn c18_public_key_length() {
+        let buf: [u8; 40] = kani::any();
+        let n: usize = kani::any();
+        kani::assume(n <= 40 && n != 32);
+        let r = VRFPublicKey::try_from(&buf[..n]);
+        assert!(r.is_err());
+    }
+
+    /// Proof::try_from refuses every byte string whose length is not 80 (lengths 0..=90 symbolic) without panicking
+    #[kani::proof]
+    #[kani::unwind(94)]
+    #[kani::stub(CompressedEdwardsY::decompress, stub_decompress)]
+    #[kani::stub(alloc::fmt::format, stub_format)]
+    fn c18_proof_length() {
+        let buf: [u8; 90] = kani::any();
+        let n: usize = kani::any();
+        kani::assume(n <= 90 && n != 80);
+        let r = Proof::try_from(&buf[..n]);
+        assert!(r.is_err());
+    }
 }
